@@ -27,7 +27,9 @@ RULE = ("Export in {write_rtf, write_docx, write_html, write_pdf} x document fro
         "an HTML file plus a <name>_files folder; and the library's own LibreOfficeConverter on a fake soffice executable that "
         "succeeds / exits 3 / exits 0 without output / writes HTML plus resources} x target state {absent; present with known bytes; inside a missing "
         "directory tree; (html) resource folder already present} x target names with and without the usual suffix; "
-        "Hypothesis draws further combinations. Oracle: file-system snapshots (names + sha256) of the target's "
+        "Hypothesis draws further combinations; in a fifth of them (and an enumerated block) the same document object was "
+        "exported before and then changed in place (title text / orientation): the file / the converter's input must be "
+        "what rtf_encode() returns now. Oracle: file-system snapshots (names + sha256) of the target's "
         "directory and of a private TMPDIR before/after: on an exception the target is byte-identical (or still "
         "absent), nothing else appeared beside it, TMPDIR is empty; on success write_rtf's file equals the string "
         "that very rtf_encode() call returned and parses cleanly, the converter's bytes are at the target, the "
@@ -107,12 +109,17 @@ class Stub:
         self.behaviour = behaviour
         self.written = None
         self.files_dir = None
+        self.input_bytes = None
 
     def convert(self, input_files, output_dir, format="pdf", overwrite=False):
         b = self.behaviour
         if b == "raise_before":
             raise RuntimeError("stub: conversion failed before producing output")
         inp = Path(input_files)
+        try:
+            self.input_bytes = inp.read_bytes()
+        except OSError:
+            self.input_bytes = None
         out = Path(output_dir) / f"{inp.stem}.{format}"
         if b == "ok_empty":
             out.write_bytes(b"")            # a converter that reports success with a zero-byte output
@@ -238,6 +245,11 @@ def enumerate_cases(tier):
         for di in range(len(DOCS)):
             for name in NAMES["write_rtf"]:
                 yield {"export": "write_rtf", "doc": di, "fault": None, "stub": "ok", "target": tgt, "name": name}
+    # the same document exported before, changed in place (title text / orientation), exported again
+    for export in EXPORTS:
+        for di in range(len(DOCS)):
+            for first in ("rtf", "docx"):
+                yield {"export": export, "doc": di, "fault": None, "stub": "ok", "target": "absent", "name": NAMES[export][0], "rewrite": first}
 
 
 @st.composite
@@ -248,7 +260,10 @@ def _case(draw):
     fault = draw(st.one_of(st.none(), st.integers(1, n), st.integers(1, n)))
     stub = draw(st.sampled_from(STUBS)) if export != "write_rtf" else "ok"
     tgt = draw(st.sampled_from(TARGETS if export == "write_html" else TARGETS[:3]))
-    return {"export": export, "doc": di, "fault": fault, "stub": stub, "target": tgt, "name": draw(st.sampled_from(NAMES[export]))}
+    case = {"export": export, "doc": di, "fault": fault, "stub": stub, "target": tgt, "name": draw(st.sampled_from(NAMES[export]))}
+    if draw(st.integers(0, 9)) < 2:
+        case["rewrite"] = draw(st.sampled_from(["rtf", "docx"]))
+    return case
 
 
 def strategy(tier):
@@ -274,6 +289,23 @@ def check(case) -> Result:
     except Exception as e:
         res.harness_error = f"converter set-up failed: {type(e).__name__}: {e}"
         return res
+    if case.get("rewrite"):
+        # history: the same document object was exported before (elsewhere), then changed in place
+        try:
+            prior_dir = os.path.join(base, "prior")
+            os.makedirs(prior_dir)
+            with contextlib.redirect_stdout(io.StringIO()):
+                if case["rewrite"] == "rtf":
+                    doc.write_rtf(os.path.join(prior_dir, "first.rtf"))
+                else:
+                    doc.write_docx(os.path.join(prior_dir, "first.docx"), converter=Stub("ok"))
+            if doc.rtf_title is not None:
+                doc.rtf_title.text = ["@T0 (revised)"]
+            else:
+                doc.rtf_page.orientation = "landscape"
+        except Exception as e:
+            res.harness_error = f"prior export failed: {type(e).__name__}: {e}"
+            return res
     before_area = snapshot(area)
     captured = []
     orig_encode = type(doc).rtf_encode
@@ -325,7 +357,11 @@ def check(case) -> Result:
             else:
                 with open(target, "rb") as f:
                     data = f.read()
-                if not captured or data != captured[-1].encode("utf-8"):
+                if case.get("rewrite"):
+                    now = orig_encode(doc).encode("utf-8")
+                    if data != now:
+                        res.fail("file_differs_from_rtf_encode", tag + "/after_in_place_change", f"{len(data)} bytes on disk, rtf_encode() of the document returns {len(now)}")
+                elif not captured or data != captured[-1].encode("utf-8"):
                     res.fail("file_differs_from_rtf_encode", tag, f"{len(data)} bytes on disk, rtf_encode returned {len(captured[-1].encode('utf-8')) if captured else None}")
                 elif not read(data).ok():
                     res.fail("file_not_well_formed", tag, "")
@@ -333,6 +369,10 @@ def check(case) -> Result:
             fmt = FMT[export]
             if case["stub"] not in ("ok", "html_with_files", "real_ok", "real_html_files", "ok_empty", "real_empty"):
                 res.fail("success_despite_converter_failure", tag, f"returned normally with stub behaviour {case['stub']}")
+            if case.get("rewrite") and isinstance(stub, Stub) and stub.input_bytes is not None:
+                now = orig_encode(doc).encode("utf-8")
+                if stub.input_bytes != now:
+                    res.fail("converter_input_differs_from_rtf_encode", tag + "/after_in_place_change", f"converter read {len(stub.input_bytes)} bytes, rtf_encode() returns {len(now)}")
             if not os.path.isfile(target):
                 res.fail("success_without_file", tag, "")
             else:
@@ -358,7 +398,7 @@ def check(case) -> Result:
     inside = bool(fired) and case["fault"] is not None and 1 < case["fault"] < ncalls + (0 if outcome[0] == "ok" else 10 ** 6)
     res.labels = ["export=" + export, "stub=" + case["stub"], "target=" + case["target"], "fault=" + ("none" if case["fault"] is None else "fired" if fired else "not_reached"),
                   "outcome=" + ("raised" if outcome[0] == "exc" else "returned"),
-                  "exc=" + (type(outcome[1]).__name__ if outcome[0] == "exc" else "-")]
+                  "exc=" + (type(outcome[1]).__name__ if outcome[0] == "exc" else "-"), "re-export_after_change" if case.get("rewrite") else "first_export"]
     res.nontrivial = (fired and case["fault"] > 1) or case["stub"] not in ("ok", "real_ok") or case["target"] != "absent"
     shutil.rmtree(base, ignore_errors=True)
     return res
@@ -379,6 +419,8 @@ def extra_evidence(tier, merged):
 
 
 def reductions(case):
+    if case.get("rewrite"):
+        yield {k: v for k, v in case.items() if k != "rewrite"}
     if case["doc"] != 0:
         yield dict(case, doc=0)
     if case["target"] != "absent":
